@@ -42,6 +42,8 @@ def semantic_mutation(r, m):
     kind = r.choice(["block", "block", "block", "size", "observe", "etag", "rtag", "token", "mid",
                      "type", "code", "dup-opt", "payload", "drop-opt", "qblock", "oscore-opt",
                      "noresponse", "echo"])
+    if any(n == 9 and v for n, v in m["options"]) and r.random() < 0.5:
+        kind = "oscore-piv"
 
     def setopt(num, val):
         m["options"] = [(n, v) for n, v in m["options"] if n != num] + [(num, val)]
@@ -79,6 +81,25 @@ def semantic_mutation(r, m):
         m["options"].pop(r.randrange(len(m["options"])))
     elif kind == "oscore-opt":
         setopt(9, bytes(r.getrandbits(8) for _ in range(r.choice([0, 1, 2, 3, 9, 12]))))
+    elif kind == "oscore-piv":
+        # a protected message of the recorded traffic with the sender's kid kept (it travels in
+        # the clear) and a Partial IV of the forger's choosing; ciphertext as recorded, cut
+        # short (shorter than the AEAD tag included) or random
+        ov = [v for n, v in m["options"] if n == 9][0]
+        flags = ov[0]
+        pl = flags & 7
+        rest = ov[1 + pl:]
+        piv = r.choice([bytes([r.getrandbits(8)]), b"\x7f\xff", b"\xff\xff\xff\xff\xfe",
+                        b"\xff\xff\xff\xff\xff", (int.from_bytes(ov[1:1 + pl] or b"\0", "big")
+                                                   + r.choice([1, 2, 40])).to_bytes(5, "big")
+                        .lstrip(b"\0") or b"\0"])
+        setopt(9, bytes([(flags & 0xF8) | len(piv)]) + piv + rest)
+        y = r.random()
+        if y < 0.4:
+            m["payload"] = m["payload"][:r.choice([1, 3, 7, 8, 9])]
+        elif y < 0.6:
+            m["payload"] = bytes(r.getrandbits(8) for _ in range(r.choice([1, 5, 8, 20])))
+        m["mid"] = r.getrandbits(16)
     elif kind == "noresponse":
         setopt(258, u(r.choice([0, 2, 8, 16, 26, 127])))
     elif kind == "echo":
@@ -148,6 +169,9 @@ def _udp(exe, r, run, stats, w, sim, wit):
     osc = None
     if r.random() < 0.5:
         osc = c14.gen_ctx(r)
+        # (room for the whole run: a sender that has used up its 2^40 sequence numbers rightly
+        # refuses to send, which is not what the canary at the end is about)
+        osc["start"] = min(osc["start"], 2 ** 40 - 100000)
         sim.cmd("oscore_server 1 %s" % c14.conf_text(osc["secret"], osc["salt"], osc["server_id"],
                                                      osc["client_id"], osc["idctx"],
                                                      r.random() < 0.3))
@@ -164,9 +188,11 @@ def _udp(exe, r, run, stats, w, sim, wit):
     evs = sim.cmd("sess 0 0 udp %s mtu=%d" % (SRV, mtu))
     cli_addr = [e["local"] for e in evs if e["e"] == "sess"][0]
     if osc:
-        sim.cmd("sess 0 1 udp %s oscore=%s start_seq=%d" % (
+        evs = sim.cmd("sess 0 1 udp %s oscore=%s start_seq=%d" % (
             SRV, c14.conf_text(osc["secret"], osc["salt"], osc["client_id"], osc["server_id"],
                                osc["idctx"], False), osc["start"]))
+        if not any(e["e"] == "sess" and e.get("ok") for e in evs):
+            osc = None     # (a context the library declines, e.g. an over-long ID Context)
     # valid work in progress on both sides
     valid = [
         "send 0 0 type=0 code=1 token=b1 opts=11=%s" % b"big".hex(),
@@ -268,6 +294,18 @@ def _udp(exe, r, run, stats, w, sim, wit):
     sim.cmd("send 0 0 type=0 code=1 token=ca02 opts=11=%s" % b"r".hex())
     sim.run(until=sim.elapsed() + 120000, quiesce=False)
     stats["canaries"] += 2
+    if osc:
+        # ... and the security context: the genuine client's next protected request
+        sim.cmd("send 0 1 type=0 code=1 token=ca03 opts=11=%s" % b"r".hex())
+        sim.run(until=sim.elapsed() + 120000, quiesce=False)
+        stats["canaries"] += 1
+        stats["oscore_canaries"] = stats.get("oscore_canaries", 0) + 1
+        ok3 = [e for e in sim.log if e["e"] == "rsp" and e.get("n") == 0 and e["tok"] == "ca03"
+               and e["code"] == 69 and e.get("phex") == BODY.hex()]
+        if not ok3:
+            run.violation("canary-failed/oscore-session", dict(wit, classes=sorted(classes)),
+                          "after the hostile input a protected GET of the genuine OSCORE client "
+                          "was not answered 2.05 with the resource body")
     m = got.get(b"\xca\x01")
     if not m or m["code"] != 69 or m["payload"] != BODY:
         run.violation("canary-failed/fresh-peer", dict(wit, classes=sorted(classes)),
